@@ -67,7 +67,9 @@ pub fn inject(c: &Command) -> Option<String> {
     if is_mutating(c) {
         point(command_kind(c));
         let k = VH_MUT_CMDS.fetch_add(1, AtOrd::SeqCst);
-        if vh_plan_has("cmd", k, "error") {
+        // (a chunk of a file fails inside its handler - write:<k>:fail - so that the doer's own bookkeeping of a
+        // failed transfer is exercised; it is counted here but never answered with a command-level error)
+        if vh_plan_has("cmd", k, "error") && !matches!(c, Command::CreateOrUpdateFile { .. }) {
             return Some(format!("verif: injected failure at mutating command {}", k));
         }
     } else if let Command::GetFileContent { .. } = c {
